@@ -11,6 +11,7 @@ import (
 	"strings"
 	"unsafe"
 
+	bcrpb "github.com/google/fhir/go/proto/google/fhir/proto/r4/core/resources/bundle_and_contained_resource_go_proto"
 	dtpb "github.com/google/fhir/go/proto/google/fhir/proto/r4/core/datatypes_go_proto"
 	ppb "github.com/google/fhir/go/proto/google/fhir/proto/r4/core/resources/patient_go_proto"
 	"github.com/verily-src/fhirpath-go/fhirpath"
@@ -34,10 +35,10 @@ func init() {
 		Assumptions: []string{"typed-reference strings and elements under `contained` are synthesized/unpacked into fresh objects by design (compared by value)",
 			"Mutable() on an empty list is invisible in proto semantics and is not flagged"},
 		Run:    runC03,
-		Checks: map[string]func(*core.Env, []json.RawMessage){"nilmembers": func(env *core.Env, a []json.RawMessage) { c03NilMembers(env) }, "prog": replayC03},
+		Checks: map[string]func(*core.Env, []json.RawMessage){"nilmembers": func(env *core.Env, a []json.RawMessage) { c03NilMembers(env) }, "emptywrappers": func(env *core.Env, a []json.RawMessage) { c03EmptyWrappers(env) }, "prog": replayC03},
 		Threshold: func(m *core.Merged) []string {
 			var r []string
-			for _, k := range []string{"evaluated", "returned-elements", "errored", "aliasing-program", "generated-program", "spare-capacity-checked", "expression-digest", "table-args"} {
+			for _, k := range []string{"evaluated", "returned-elements", "errored", "aliasing-program", "generated-program", "spare-capacity-checked", "expression-digest", "table-args", "nil-choice-member", "empty-resource-wrapper"} {
 				if m.Cover[k] == 0 {
 					r = append(r, "never observed: "+k)
 				}
@@ -547,6 +548,41 @@ func c03NilMembers(env *core.Env) {
 	}
 }
 
+// c03EmptyWrappers: resource wrappers that select a member and hold no resource (a Bundle entry, a variable): the steps
+// that unwrap them read the member and leave the wrapper as it is.
+func c03EmptyWrappers(env *core.Env) {
+	defer env.In("emptywrappers")()
+	env.Case()
+	mk := func() (*bcrpb.Bundle, *bcrpb.ContainedResource) {
+		b := &bcrpb.Bundle{Id: &dtpb.Id{Value: "b"}, Entry: []*bcrpb.Bundle_Entry{
+			{FullUrl: &dtpb.Uri{Value: "urn:a"}, Resource: &bcrpb.ContainedResource{OneofResource: &bcrpb.ContainedResource_Patient{}}},
+			{FullUrl: &dtpb.Uri{Value: "urn:b"}, Resource: &bcrpb.ContainedResource{OneofResource: &bcrpb.ContainedResource_Patient{Patient: &ppb.Patient{Id: &dtpb.Id{Value: "p1"}}}}},
+			{FullUrl: &dtpb.Uri{Value: "urn:c"}, Resource: &bcrpb.ContainedResource{OneofResource: &bcrpb.ContainedResource_Observation{}}},
+			{FullUrl: &dtpb.Uri{Value: "urn:d"}, Resource: &bcrpb.ContainedResource{}},
+			{FullUrl: &dtpb.Uri{Value: "urn:e"}},
+		}}
+		return b, &bcrpb.ContainedResource{OneofResource: &bcrpb.ContainedResource_Patient{}}
+	}
+	for _, src := range []string{"Bundle.entry.resource", "Bundle.entry.resource.id", "Bundle.entry.resource.where(id = 'p1').exists()", "Bundle.descendants().count()", "Bundle.entry.children()", "Bundle.entry.resource.ofType(Patient)",
+		"Bundle.entry.resource is Patient", "Bundle.entry[0].resource.exists()", "Bundle.entry.select(resource.id)", "Bundle.entry.resource.children().count()", "Bundle.entry.all(resource.exists())", "Bundle.entry.resource.count()",
+		"%w", "%w.id", "%w.children()", "%w.descendants().count()", "%w is Patient", "%w.exists()", "Bundle.entry.resource | %w", "Bundle.entry.resource.where($this is Observation)"} {
+		b, w := mk()
+		before, beforeW := goShape(b), goShape(w)
+		r := fx.Eval(env, src, []fhir.Resource{b}, nil, []fhirpath.EvaluateOption{evalopts.EnvVariable("w", w)})
+		env.Cover("empty-resource-wrapper")
+		if r.IsPanic() {
+			env.Skip("empty-wrapper-input-panics") // totality is C01's concern; not a mutation
+			continue
+		}
+		if after := goShape(b); after != before {
+			env.Violatef("C03/resource-mutated/empty-resource-wrapper", "`%s`: the input Bundle (entries whose resource wrapper selects a member and holds no resource) changed shape: a nil member was allocated or a field was set", src)
+		}
+		if after := goShape(w); after != beforeW {
+			env.Violatef("C03/variable-mutated/empty-resource-wrapper", "`%s`: the wrapper bound to %%w (a selected member, no resource) changed shape", src)
+		}
+	}
+}
+
 // c03FailedRuns: a compiled expression answers the same after many evaluations that failed (an option that is
 // refused, a variable that is missing, an operation that errors) as before them.
 func c03FailedRuns(env *core.Env) {
@@ -593,6 +629,7 @@ func c03FailedRuns(env *core.Env) {
 func runC03(env *core.Env) {
 	if env.Shard == 2%env.NShards {
 		c03NilMembers(env)
+		c03EmptyWrappers(env)
 	}
 	if env.Shard == 3%env.NShards {
 		c03FailedRuns(env)
